@@ -216,6 +216,22 @@ gen_matrix (Rng& r, int cls, M& m, bool& want_affine)
             int i0 = (int) r.range (0, K - 1), j0 = (int) r.range (0, K - 1);
             a[i0] = emin_norm + (int) r.range (-3, 3) - b[j0];
             for (int i = 0; i < K; ++i) for (int j = 0; j < K; ++j) m[i][j] = (T) std::ldexp (r.uniform (0.5, 1.0) * (r.coin () ? 1 : -1), a[i] + b[j]);
+            if (r.coin ())
+            {
+                // fine tuning: rescale row i0 (its cofactors do not depend on it, the determinant is linear in it)
+                // so that the exact max |cof_{i0,j}| / |det| lands within a few eps of the guard value 1/min;
+                // this is where the library's rounding decides, i.e. where the tolerance of the tightness
+                // check is exercised
+                f128 A[4][4], det, sa, best = 0;
+                for (int i = 0; i < K; ++i) for (int j = 0; j < K; ++j) A[i][j] = m[i][j];
+                det_abs (A, K, det, sa);
+                for (int j = 0; j < K; ++j) { f128 mn, ms; minor_abs (A, K, i0, j, mn, ms); if (abs128 (mn) > best) best = abs128 (mn); }
+                if (det != 0 && best != 0)
+                {
+                    f128 g = best / abs128 (det) * (f128) tmin<T> () * (1 + (f128) (r.sym (6.0) * (double) teps<T> ()));
+                    for (int j = 0; j < K; ++j) m[i0][j] = (T) ((f128) m[i0][j] * g);
+                }
+            }
             if (aff) { for (int j = 0; j < N - 1; ++j) m[N - 1][j] = benign<T> (r); m[N - 1][N - 1] = T (1); want_affine = true; }
             break;
         }
